@@ -53,6 +53,31 @@ def generate(rng, tier):
             li = s.add("iter U C %s %s %s %d 0" % (hx(sc["pc"]), regs, mid, len(sc["chain"]) + 3))
             s.meta[li] = {"chain_iter": [c[0] for c in sc["chain"]], "mask": mask}
         out.append(("truth-%s-%s-%d" % (arch, policy, pi), s))
+    # aarch64 code without frame records: x29 is a general-purpose callee-saved register there, its callers' values
+    # (small integers, pointers into the heap) are restored like those of x19..x28 (seeded change C01-15 took the restored
+    # value for a frame pointer and rejected it)
+    for pi in range(2 if tier == "quick" else 24):
+        policy = "may" if pi % 2 == 0 else "must"
+        s = Script("a64", policy)
+        funcs = truth.make_program_gpfp(rng)
+        pres = ("hdr", "eh", "debug")[pi % 3]
+        ba = 0x10000000 + 0x1000 * rng.below(16)
+        base_svma = rng.choice([0, 0x400000])
+        s.module_dwarf("M", ba, ba + max(f.start + f.length for f in funcs) + 0x100, ba, base_svma, pres,
+                       truth.program_fdes(funcs, base_svma), rng, shuffle=True, pcrel=(pres != "debug" and rng.chance(1, 2)))
+        s.add("new U"); s.add("add U M")
+        for k in range(30 if tier == "quick" else 100):
+            sc = truth.make_scenario(rng, "a64", funcs, ba, 0x7fff0000 + 0x1000 * rng.below(4), rng.range(2, 6))
+            mid = "S%d" % k
+            s.mem(mid, sorted(sc["mem"].items()))
+            mask = (1 << 48) - 1
+            regs = s.regs_a64(mask, sc["regs"]["lr"], sc["regs"]["sp"], sc["regs"]["fp"])
+            s.add("newcache C")
+            inner = sc["frames"][-1]
+            ln = s.add("trace U C %s %s %s %d" % (hx(sc["pc"]), regs, mid, len(sc["chain"]) + 4),
+                       tag="a64:%s:nofp:%s:%s" % (pres, inner["func"].shape, inner["b"].kind))
+            s.meta[ln] = {"chain": [list(c) for c in sc["chain"]], "arch": "a64", "mask": mask}
+        out.append(("truth-a64-nofp-%s-%d" % (policy, pi), s))
     return out
 
 def judge(script, impl):
